@@ -472,5 +472,13 @@ def generate():
         ['(%s, %s)' % (lean_str(n), lean_list([lean_kind(k) for k in c['nkinds'][n]])) for n in nts]))
     out.append('def listElems : List (String × List String) := %s' % lean_list(
         ['(%s, %s)' % (lean_str(n), lean_list([lean_str(k) for k in sorted(c['elemk'][n])])) for n in nts]))
+    # canonical text of every production's descriptor (default + exception rows), for equality checks in Lean
+    digs = []
+    for idx in range(len(prods)):
+        rows = sorted((repr(combo), repr(d)) for (i, combo), d in table.items() if i == idx)
+        # positions of a trailing SEMI/AUTOSEMI slot are part of the descriptor and equal in twins (same slot index)
+        digs.append(repr(rows))
+    import hashlib
+    out.append('def digests : List String := %s' % lean_list([lean_str(hashlib.sha256(x.encode()).hexdigest()[:16]) for x in digs]))
     out.append('\nend CalmVerif.Gen.Actions\n')
     return {'CalmVerif/Gen/Actions.lean': '\n'.join(out)}
